@@ -1,8 +1,11 @@
-"""C15: connection-level check (see DESIGN section 6 / C15): scenario families on the real endpoints, recorded traces
-validated against RSocket.tla by TLC; design-level model checking of the same monitors in RSocketMC.tla."""
-from . import conn, families, mc
+"""C15: (1) KeepAlive.tla - the client's keep-alive sender, time-out watchdog, echo and the aftermath of a time-out, under a
+clock - model-checked exhaustively for several (period, lifetime) pairs and every transition of its state graphs replayed on a
+real RSocketClient against a scripted server under the virtual-time loop (vf/props/kamodel.py); (2) connection level (see DESIGN
+section 6 / C15): scenario families on the real endpoints, recorded traces validated against RSocket.tla by TLC."""
+from . import conn, families, mc, kamodel
 
 
 def run(v):
+    kamodel.check(v)
     mc.run_for(v, 'C15')
     conn.check(v, 'C15', families.FAMILIES['C15'])
